@@ -341,6 +341,46 @@ func checkC06(e *Engine, r *Report) {
 	r.MinInstances("R3 writers (libmem state)", n, 12)
 
 	c.checkJournaling(r)
+	// single residence: a request is assigned to a zone only when it is in no zone — every zoneAssign call is for a
+	// fresh request (the one being admitted by allocate, or an offer's own request in Commit), or is preceded on every
+	// path by zoneRemove (or by a failed lookup in the users map) in the same function
+	{
+		fOReq := e.Field(pkgLM, "Offer", "req")
+		na := 0
+		for _, cs := range e.Callers(c.zoneAssign) {
+			na++
+			fn := cs.Fn
+			arg := callArgs(cs.Call)[2]
+			ok, why := false, ""
+			switch {
+			case fn == c.allocate && paramIndex(arg) == 1:
+				ok, why = true, "the request being admitted (validateRequest refuses an id that already exists)"
+			case fn == c.commit:
+				if f, _ := loadedField(arg); f == fOReq && fOReq != nil {
+					ok, why = true, "the offer's own, not yet admitted request"
+				} else {
+					why = "Commit assigns a request other than the offer's own without removing it from its current zone"
+				}
+			default:
+				notUser := func(cond ssa.Value) (bool, bool) {
+					// `_, ok := a.users[id]` failed: the request is in no zone
+					if ex, isEx := cond.(*ssa.Extract); isEx && ex.Index == 1 {
+						if lk, isLk := ex.Tuple.(*ssa.Lookup); isLk {
+							if f, _ := loadedField(lk.X); f == c.fUsers {
+								return true, true // explore the branch where it IS a user
+							}
+						}
+					}
+					return false, false
+				}
+				p := FindPath(PathQuery{Fn: fn, Assume: notUser, Block: func(in ssa.Instruction) bool { return e.IsCallTo(in, fset(c.zoneRemove)) },
+					Target: func(in ssa.Instruction) bool { return in == cs.Call.(ssa.Instruction) }})
+				ok, why = p == nil, "reaches zoneAssign without zoneRemove: "+e.pathString(p)
+			}
+			r.Check("R3:single-residence@"+FnName(fn), "R3 journal completeness", "a request is assigned to a zone only when it is in no zone (fresh request, or removed from its current zone first), so no zone keeps counting a request that has moved", e.InstrPos(cs.Call), fn, ok, why, true)
+		}
+		r.MinInstances("zoneAssign callers", na, 3)
+	}
 	// cleanupUnusedZones deletes only empty zones
 	if fn := r.Anchor(pkgLM, "Allocator.cleanupUnusedZones"); fn != nil {
 		AllInstrs(fn, func(in ssa.Instruction) {
